@@ -21,6 +21,8 @@ type Check struct {
 	NoBubble   bool
 	// Custom replaces the generic explorer entirely (BFS / scheduler engines).
 	Custom func(t *testing.T, e *mc.Explorer) *mc.ShardResult
+	// ReplayCustom re-executes a violation found by a custom engine (returns true if it still fails).
+	ReplayCustom func(t *testing.T, v *mc.Violation) bool
 }
 
 var registry = map[string]*Check{}
@@ -76,6 +78,7 @@ func TestCheck(t *testing.T) {
 	} else {
 		res = e.Explore(t)
 	}
+	e.Finalize(res)
 	out := os.Getenv("VERIF_OUT")
 	if out == "" {
 		b, _ := json.MarshalIndent(res, "", " ")
@@ -104,6 +107,25 @@ func TestReplay(t *testing.T) {
 	c := registry[v.Property]
 	if c == nil {
 		t.Fatalf("unknown check %q", v.Property)
+	}
+	if c.ReplayCustom != nil && len(v.Choices) == 0 {
+		bad := false
+		for i := 0; i < 5; i++ {
+			r := c.ReplayCustom(t, &v)
+			if i == 0 {
+				bad = r
+			} else if r != bad {
+				fmt.Printf("REPLAY-NONDETERMINISTIC run %d\n", i)
+				t.Fail()
+			}
+		}
+		if bad {
+			fmt.Printf("REPLAY-VIOLATION property=%s signature=%q\n", v.Property, v.Signature)
+			t.Fail()
+		} else {
+			fmt.Println("REPLAY-OK: no violation on this tree")
+		}
+		return
 	}
 	e := explorerFor(c)
 	e.Shards = 1
